@@ -281,3 +281,163 @@ Example c17_renumbering_permutes_equations_example :
            (SolveSimple.assemble CalQI.qops TE10 2%nat 2%nat RenumberProofs.rn_pval
               (List.map (RenumberModel.renum_mv CalQI.qops TE10 2%nat RenumberProofs.sw2 RenumberProofs.sw2) RenumberProofs.rn_ms) 0%nat).
 Proof. exact RenumberProofs.renum_example_lemma. Qed.
+
+
+(* ==================================================================================================
+   Session 5, second part: renumbering of the VNA ports, from the equations to the results
+   (coq/Cal/RenumberResultsModel.v, RenumberResults.v, RenumberResultsEx.v).  Types T8, TE10, U8, UE10, T16, U16
+   (RenumberModel.renum_type), square calibrations mr = mc = n, EVERY n, every renumbering p with inverse q.
+   With these, c17_renumbering_permutes_equations_partial above is no longer the end of the chain:
+     (a0) perm_index is a bijection of the error-term indices; (a) the solution sets of the homogeneous systems correspond;
+     (b) solved terms: if the data fit the model and the renumbered system has enough rows and full column rank, the solve
+         model returns, for the renumbered standards, the permuted original terms divided by the entry that lands on the
+         unity position (renum_terms); (c1) the documented equation of the renumbered data (terms permuted and scaled by any
+         common factor ci, leakage terms permuted, M and S renumbered) is ci times the original one, cell (p i, p j) against
+         (i, j); (c2) hence vnacal_apply (q_apply: fill functions as coded + LU model) on the renumbered terms and the
+         renumbered device measurement returns the renumbered S whenever it reports success, for data that fit the model.
+   STILL MISSING (tested by the renumbering pairs of checks/C17.py only): full rank of the renumbered system is a hypothesis
+   of (b), not derived from that of the original; (b) is stated on q_solve_system (the one system of these types), the
+   wrapper q_error_terms with the permuted leakage terms and the instantiation of (c2) with the output of (b) are not
+   stated (the T8 2x2 example does it concretely); (c2) is for data that fit the model, not for arbitrary inputs;
+   add_common (renumbered call) = renum_meas (original) for all arguments is the tie renumber_structure_tie, not a theorem;
+   UE14 / E12 and rectangular calibrations are outside. *)
+Require LV.Cal.RenumberResultsModel LV.Cal.RenumberResults LV.Cal.RenumberResultsEx LV.Cal.ApplyIdentity LV.Cal.ApplyModel LV.Cal.SolveRecovers LV.Base.QcI.
+
+Theorem c17_renumbering_perm_index_bijection :
+  forall (ty : caltype) (n : nat) (p q : nat -> nat),
+  RenumberModel.renum_type ty = true -> RenumberModel.is_renum n p q -> Peano.lt 0%nat n ->
+  RenumberModel.is_renum (RenumberModel.t_terms_of ty n) (RenumberModel.perm_index ty n p) (RenumberModel.perm_index ty n q).
+Proof. exact RenumberResults.perm_index_renum_lemma. Qed.
+Print Assumptions c17_renumbering_perm_index_bijection.
+
+Theorem c17_renumbering_solution_sets :
+  forall (K : CField.CField) (ty : caltype) (n : nat) (p q : nat -> nat) (pval : Z -> CField.F K)
+         (ms : list (SolveSimple.mvals (Sym.ops_of K))) (sys : nat) (e : nat -> CField.F K),
+  RenumberModel.renum_type ty = true -> RenumberModel.is_renum n p q ->
+  (forall mv, List.In mv ms -> RenumberModel.meas_wf ty n (SolveSimple.mv_meas (Sym.ops_of K) mv)) ->
+  (RenumberResultsModel.hsat K (RenumberModel.unity_pos ty n) (RenumberModel.t_terms_of ty n)
+      (SolveSimple.assemble (Sym.ops_of K) ty n n pval ms sys) e <->
+   RenumberResultsModel.hsat K (RenumberModel.unity_pos ty n) (RenumberModel.t_terms_of ty n)
+      (SolveSimple.assemble (Sym.ops_of K) ty n n pval (List.map (RenumberModel.renum_mv (Sym.ops_of K) ty n p q) ms) sys)
+      (fun k => e (RenumberModel.perm_index ty n q k))).
+Proof. exact RenumberResults.renum_solution_sets_lemma. Qed.
+Print Assumptions c17_renumbering_solution_sets.
+
+Theorem c17_renumbering_solved_terms :
+  forall (ty : caltype) (n : nat) (p q : nat -> nat) (pval : Z -> QcI.qi) (ms : list (SolveSimple.mvals CalQI.qops)),
+  RenumberModel.renum_type ty = true -> RenumberModel.is_renum n p q -> Peano.lt 0%nat n ->
+  (forall mv, List.In mv ms -> RenumberModel.meas_wf ty n (SolveSimple.mv_meas CalQI.qops mv)) ->
+  forall xt : list QcI.qi,
+  length xt = SolveSimple.unknowns ty n n ->
+  (forall r, List.In r (CalQI.q_assemble ty n n ms pval 0%nat) ->
+     SolveRecovers.rdot (SolveSimple.unknowns ty n n) (fst r) xt = snd r) ->
+  Peano.le (SolveSimple.unknowns ty n n)
+     (length (CalQI.q_assemble ty n n (List.map (RenumberModel.renum_mv CalQI.qops ty n p q) ms) pval 0%nat)) ->
+  SolveRecovers.kernel_trivial (SolveSimple.unknowns ty n n)
+     (CalQI.q_assemble ty n n (List.map (RenumberModel.renum_mv CalQI.qops ty n p q) ms) pval 0%nat) ->
+  RenumberModel.full_terms CalQI.qops ty n xt (RenumberModel.perm_index ty n q (RenumberModel.unity_pos ty n)) <> (@CField.c0 QcI.QIF) ->
+  CalQI.q_solve_system ty n n (List.map (RenumberModel.renum_mv CalQI.qops ty n p q) ms) pval 0%nat =
+  CalQI.SysOk (CalQI.q_assemble ty n n (List.map (RenumberModel.renum_mv CalQI.qops ty n p q) ms) pval 0%nat)
+              (RenumberResultsModel.renum_terms QcI.QIF ty n q xt).
+Proof. exact RenumberResults.renum_solved_terms_lemma. Qed.
+Print Assumptions c17_renumbering_solved_terms.
+
+Theorem c17_renumbering_documented_equation :
+  forall (K : CField.CField) (ty : caltype) (n : nat) (p q : nat -> nat),
+  RenumberModel.renum_type ty = true -> RenumberModel.is_renum n p q -> Peano.lt 0%nat n ->
+  forall (e e' m m' s s' : list (CField.F K)) (ci : CField.F K),
+  (forall k, Peano.lt k (RenumberModel.t_terms_of ty n) ->
+     ApplyModel.g (Sym.ops_of K) e' (RenumberModel.perm_index ty n p k) = CField.cmul (ApplyModel.g (Sym.ops_of K) e k) ci) ->
+  (ApplyModel.has_leak ty = true -> forall r c, Peano.lt r n -> Peano.lt c n -> r <> c ->
+     ApplyModel.el_at (Sym.ops_of K) ty n n e' (ApplyModel.leak_index n (p r) (p c)) =
+     ApplyModel.el_at (Sym.ops_of K) ty n n e (ApplyModel.leak_index n r c)) ->
+  (forall i j, Peano.lt i n -> Peano.lt j n ->
+     ApplyModel.g (Sym.ops_of K) m' (Nat.add (Nat.mul (p i) n) (p j)) = ApplyModel.g (Sym.ops_of K) m (Nat.add (Nat.mul i n) j)) ->
+  (forall i j, Peano.lt i n -> Peano.lt j n ->
+     ApplyModel.g (Sym.ops_of K) s' (Nat.add (Nat.mul (p i) n) (p j)) = ApplyModel.g (Sym.ops_of K) s (Nat.add (Nat.mul i n) j)) ->
+  forall i j, Peano.lt i n -> Peano.lt j n ->
+  ApplyIdentity.doc_cell K ty n n e' m' s' (p i) (p j) = CField.cmul (ApplyIdentity.doc_cell K ty n n e m s i j) ci.
+Proof. exact RenumberResults.doc_cell_renum_lemma. Qed.
+Print Assumptions c17_renumbering_documented_equation.
+
+Theorem c17_renumbering_applied_S :
+  forall (ty : caltype) (n : nat) (p q : nat -> nat) (e e' m s : list QcI.qi) (ci : QcI.qi),
+  RenumberModel.renum_type ty = true -> RenumberModel.is_renum n p q -> Peano.le 1%nat n ->
+  length m = Nat.mul n n -> length s = Nat.mul n n ->
+  (forall k, Peano.lt k (RenumberModel.t_terms_of ty n) ->
+     ApplyModel.g CalQI.qops e' (RenumberModel.perm_index ty n p k) = CField.cmul (ApplyModel.g CalQI.qops e k) ci) ->
+  (ApplyModel.has_leak ty = true -> forall r c, Peano.lt r n -> Peano.lt c n -> r <> c ->
+     ApplyModel.el_at CalQI.qops ty n n e' (ApplyModel.leak_index n (p r) (p c)) =
+     ApplyModel.el_at CalQI.qops ty n n e (ApplyModel.leak_index n r c)) ->
+  (forall i j, Peano.lt i n -> Peano.lt j n -> ApplyIdentity.doc_cell QcI.QIF ty n n e m s i j = @CField.c0 QcI.QIF) ->
+  forall a b x, CalQI.q_apply ty n n e' (RenumberModel.renum_cells n q m QcI.qi0) = CalQI.AOk a b x ->
+  x = RenumberModel.renum_cells n q s QcI.qi0.
+Proof. exact RenumberResults.renum_apply_lemma. Qed.
+Print Assumptions c17_renumbering_applied_S.
+
+(* non-vacuity (statements in coq/Cal/RenumberResultsEx.v, decided by vm_compute): T8 2x2, ports swapped, true terms
+   Ts = diag(2, 3), Ti = diag(1/2, 1/3), Tx = 0, Tm = diag(1, 5), standards through, (short, i), (i, 1/2), (1/2, short):
+   every hypothesis of (a) and (b) holds, renum_terms = [3/5; 2/5; 1/15; 1/10; 0; 0; 1/5] and the solve of the renumbered
+   standards returns exactly this vector; a non-symmetric device: q_apply on the renumbered terms (scaled by 1/5) and the
+   renumbered measurement returns the renumbered S, which differs from S *)
+Example c17_renumbering_results_example :
+  ltac:(let T := type of RenumberResultsEx.renum_results_example_lemma in exact T).
+Proof. exact RenumberResultsEx.renum_results_example_lemma. Qed.
+Example c17_renumbering_applied_S_example :
+  ltac:(let T := type of RenumberResultsEx.renum_apply_example_lemma in exact T).
+Proof. exact RenumberResultsEx.renum_apply_example_lemma. Qed.
+
+(* ==================================================================================================
+   "E12 and UE14 calibrations of the same data correct identically" on the models (coq/Cal/RenumberE12Ue14.v).
+   (1) every field, the shapes vnacal_apply accepts with dimensions 1..4 (1x1 .. 4x4 and 2x1: the bound), ALL term vectors,
+       matrices and candidate S: the documented E12 expression at the terms convert_ue14_to_e12 (as coded) produces is, cell by
+       cell, the documented UE14 expression up to the non-zero factor of its column;
+   (2) Gaussian rationals, apply model as coded: whenever vnacal_apply succeeds with the UE14 terms and with the converted E12
+       terms on the same matrix, both return the same S;
+   (3) every shape, every list of standards: the solve model assembles and solves the same systems for UE14 and E12, and the
+       E12 terms it saves are convert_ue14_to_e12 of the UE14 terms;
+   together: c17_e12_ue14_correct_identically.  Hypotheses: the um terms and us_c um_cc - ui_c ux_cc are non-zero (the
+   conversion divides by them; the C code reports EDOM for um = 0).  Not stated: that one apply succeeds iff the other does. *)
+Require LV.Cal.RenumberE12Ue14 LV.Cal.ApplyProofs.
+
+Theorem c17_e12_documented_equation_of_ue14 :
+  forall (K : CField.CField) (mr mc : nat) (e m s : list (CField.F K)),
+  List.In (mr, mc) RenumberE12Ue14.e12_shapes ->
+  length e = ApplyIdentity.nterms UE14 mr mc -> length m = Nat.mul (Nat.max mr mc) (Nat.max mr mc) ->
+  length s = Nat.mul (Nat.max mr mc) (Nat.max mr mc) ->
+  (forall c r, Peano.lt c mc -> Peano.lt r mr -> RenumberE12Ue14.um14 K mr mc e c r <> CField.c0) ->
+  (forall c, Peano.lt c mc -> RenumberE12Ue14.det14 K mr mc e c <> CField.c0) ->
+  forall i j, Peano.lt i (Nat.max mr mc) -> Peano.lt j (Nat.max mr mc) ->
+    CField.cmul (ApplyIdentity.doc_cell K E12 mr mc (SolveSimple.convert_ue14_to_e12 (Sym.ops_of K) mr mc e) m s i j)
+                (RenumberE12Ue14.det14 K mr mc e (RenumberE12Ue14.col_of mc j))
+    = CField.cmul (ApplyIdentity.doc_cell K UE14 mr mc e m s i j)
+                  (RenumberE12Ue14.um14 K mr mc e (RenumberE12Ue14.col_of mc j) (RenumberE12Ue14.col_of mc j)).
+Proof. exact RenumberE12Ue14.e12_doc_identity_lemma. Qed.
+Print Assumptions c17_e12_documented_equation_of_ue14.
+
+Theorem c17_e12_ue14_same_systems :
+  forall (mr mc : nat) (ms : list (SolveSimple.mvals CalQI.qops)) (pval : Z -> QcI.qi),
+  CalQI.q_error_terms E12_UE14 mr mc ms pval =
+  match CalQI.q_error_terms UE14 mr mc ms pval with
+  | Some e => Some (SolveSimple.convert_ue14_to_e12 CalQI.qops mr mc e) | None => None end.
+Proof. exact RenumberE12Ue14.e12_ue14_same_systems. Qed.
+Print Assumptions c17_e12_ue14_same_systems.
+
+Theorem c17_e12_ue14_correct_identically :
+  forall (mr mc : nat) (ms : list (SolveSimple.mvals CalQI.qops)) (pval : Z -> QcI.qi) (e14 m : list QcI.qi),
+  List.In (mr, mc) RenumberE12Ue14.e12_shapes ->
+  CalQI.q_error_terms UE14 mr mc ms pval = Some e14 ->
+  length e14 = ApplyIdentity.nterms UE14 mr mc -> length m = Nat.mul (Nat.max mr mc) (Nat.max mr mc) ->
+  (forall c r, Peano.lt c mc -> Peano.lt r mr -> RenumberE12Ue14.um14 QcI.QIF mr mc e14 c r <> @CField.c0 QcI.QIF) ->
+  (forall c, Peano.lt c mc -> RenumberE12Ue14.det14 QcI.QIF mr mc e14 c <> @CField.c0 QcI.QIF) ->
+  CalQI.q_error_terms E12_UE14 mr mc ms pval = Some (SolveSimple.convert_ue14_to_e12 CalQI.qops mr mc e14) /\
+  forall a b s, CalQI.q_apply UE14 mr mc e14 m = CalQI.AOk a b s ->
+  forall a' b' s', CalQI.q_apply E12 mr mc (SolveSimple.convert_ue14_to_e12 CalQI.qops mr mc e14) m = CalQI.AOk a' b' s' -> s' = s.
+Proof. exact RenumberE12Ue14.e12_ue14_correct_identically_lemma. Qed.
+Print Assumptions c17_e12_ue14_correct_identically.
+
+(* non-vacuity: one-port UE14, um = 2, ui = 1/2, ux = 1/3, us = 1, reflects -1, 1, 1/2, device 1/3 + i/5: the solve model
+   returns [1; 1/4; 1/6; 1/2], every hypothesis holds and both apply calls return the device *)
+Example c17_e12_ue14_correct_identically_example :
+  ltac:(let T := type of RenumberE12Ue14.e12_ue14_correct_identically_example in exact T).
+Proof. exact RenumberE12Ue14.e12_ue14_correct_identically_example. Qed.
